@@ -1,13 +1,15 @@
 """C12 Time bookkeeping."""
 import random
 from ..comp import contract as CT
+from ..comp import textbook as TB
+from .. import gen
 
 ID = 'C12'
 THEOREMS = CT.THEOREMS_C12 + [
     ('EAO.Properties.C19', 'EAO.C19.dt_real', 'each step length equals the real elapsed time to the next point in main time units, for any point list (DST, calendar months)'),
 ]
 PARTIAL = ['unit_change is proved for the contract / transport / multi-commodity builders (rates not given as price keys); for storages, CHP durations (min runtime etc.) and price-key rates the statement rests on the metamorphic oracle (re-optimisation under another main time unit)']
-COMPONENTS = ['contract/transport builders under unit pairs (dt scaling)']
+COMPONENTS = ['contract/transport builders under unit pairs (dt scaling)', 'independent reference LP (harness/comp/textbook.py) on zone-aware daily grids across daylight-saving switches: costs and limits billed by elapsed time']
 RULE = ('metamorphic: random small portfolios (contracts, transports, storages, plants with durations) re-expressed for another main time unit among h, d, min, s (rates, inflow, holding cost, ramps scaled; durations scaled inversely) and re-optimised on the real code: value and dispatched volumes equal; '
         'totals on DST / calendar-month grids equal rate x elapsed time; builder correspondence cases; non-trivial = solved pair with non-zero value; distinct by case hash')
 ASSUMPTIONS = ['values equal up to 1e-7 relative']
@@ -24,15 +26,71 @@ def scenarios(seed, tier):
         yield 'orc%d' % i, {'stream': 'oracle', 'case': oc}
     for i in range(n // 2):
         yield 'build%d' % i, {'stream': 'build', 'case': CT.gen_case(random.Random(rnd.getrandbits(48)))}
+    # grids with unequal steps (daily steps across a daylight-saving switch): per-time costs and limits (holding cost, inflow,
+    # rates) against an independent reference that bills by ELAPSED time
+    for i in range(n // 2):
+        r2 = random.Random(rnd.getrandbits(48))
+        tz = r2.choice(['CET', 'Europe/Berlin', 'US/Eastern'])
+        start = r2.choice(['2021-03-2%d' % r2.randint(4, 7), '2021-10-2%d' % r2.randint(7, 9), '2021-11-0%d' % r2.randint(3, 6)])
+        T = r2.randint(3, 8)
+        import pandas as pd
+        g = {'start': start + 'T00:00:00', 'end': gen.iso(pd.Timestamp(start) + pd.Timedelta(days=T)), 'freq': 'd', 'unit': r2.choice(['h', 'd', 'h']), 'tz': tz,
+             'T_nominal': T, 'step_s': 86400}
+        gen.fix_grid(g)
+        s = gen.gen_portfolio(r2, kinds=['storage', 'storage', 'simple', 'transport', 'contract'], allow_mip=False, allow_freq=False, allow_periodic=False,
+                              allow_blocks=False, grids=[('d', g['unit'], pd.Timedelta(days=1))], tz_prob=0.0, tmax=8)
+        # replace the generated grid by the zone-aware daily grid; re-draw prices of the right length
+        T2 = g['T_nominal']
+        s['grid'] = g
+        for k in list(s['prices']):
+            s['prices'][k] = [gen.q8(r2, -4, 20) for _ in range(T2)]
+        bad = False
+        for a in s['assets']:
+            a['args'].pop('start', None)
+            a['args'].pop('end', None)
+            for o in ('min_cap', 'max_cap', 'extra_costs', 'min_take', 'max_take'):
+                if isinstance(a['args'].get(o), dict):
+                    bad = True
+            if a['type'] == 'Storage':
+                a['args'].setdefault('cost_store', gen.q8(r2, 0.125, 0.5))
+                if r2.random() < 0.5:
+                    a['args'].setdefault('inflow', gen.q8(r2, 0.0, 0.25))
+        if not bad:
+            yield 'dst%d' % i, {'stream': 'textbook', 'case': s}
+    for x in _split_cases(seed, 25 if tier == 'quick' else 250):
+        yield x
+
+
+def _split_cases(seed, n):
+    """split optimisation on grids whose main time unit is not 'h' (uncoupled portfolios with wacc / takes): the interval
+    grids must keep the unit (reuses the C14 split-vs-unsplit oracle)"""
+    from . import c14
+    k = 0
+    for cid, s in c14.scenarios(seed + 1000, 'quick'):
+        if s['grid'].get('unit', 'h') != 'h' and s['stream'] in ('uncoupled', 'takes'):
+            yield 'split%d' % k, {'stream': 'split', 'case': s}
+            k += 1
+            if k >= n:
+                return
 
 
 def run_case(c, drv):
+    if c['stream'] == 'split':
+        from . import c14
+        r = c14.run_case(c['case'], drv)
+        r['features'].append('stream:split-other-unit')
+        return r
     r = {'evaluated': 1, 'nontrivial': False, 'features': ['stream:' + c['stream']], 'disagreements': [], 'violations': []}
     if c['stream'] == 'build':
         rec = CT.run_case(c['case'], drv)
         r['features'] += rec.get('features', [])
         r['disagreements'] = [{'component': 'contract-builders', 'detail': d} for d in rec.get('disagreements', [])]
         r['nontrivial'] = rec.get('nvars', 0) > 0
+    elif c['stream'] == 'textbook':
+        r2 = TB.run_case(c['case'], drv)
+        r2.setdefault('features', []).append('stream:textbook-unequal-steps')
+        r2['disagreements'] = [d if isinstance(d, dict) else {'component': 'textbook', 'detail': d} for d in r2.get('disagreements', [])]
+        return r2
     else:
         rec = CT.run_oracle(c['case'])
         r['features'] += rec.get('features', [])
